@@ -10,6 +10,7 @@ import (
 
 	"github.com/cybergarage/go-redis/redis"
 
+	"verif/internal/connsim"
 	"verif/internal/doubles"
 	"verif/internal/resp"
 	"verif/internal/sched"
@@ -22,6 +23,8 @@ import (
 //   config-port0 | config-tlsport0                      a client does it with CONFIG SET
 //   occupy-tls | free-tls                               another socket takes / gives back the TLS port (a Start then fails)
 //   drop-cert | restore-cert                            the TLS port is enabled without / with a certificate
+//   tracer-fails-once                                   a tracer is installed whose Start() fails the first time it is called
+//   clients=33|40|75                                    that many more clients connect and stay
 // Oracle: a lifecycle call returns within its time limit; when Start/Restart returns nil every port enabled by the
 // configuration at that moment is served; after Stop returns no port the server ever listened on is held by the
 // process, clients are closed, the registry is empty and no server goroutine remains. A Start/Restart that returns
@@ -100,6 +103,10 @@ func evalC15Cfg(c c15Cfg) *Failure {
 		return nil
 	}
 	afterStop := func(when string) *Failure {
+		// judged at the return of Stop, before anything else is waited for
+		if n := len(srv.Conns()); n != 0 {
+			return failf("c15|registry-not-empty", "%s: %s: the registry still holds %d connections when Stop returns", what, when, n)
+		}
 		for _, p := range []int{port, tlsPort} {
 			if occupier != nil && p == tlsPort {
 				continue
@@ -216,6 +223,29 @@ func evalC15Cfg(c c15Cfg) *Failure {
 			if occupier != nil {
 				occupier.Close()
 				occupier = nil
+			}
+		case "tracer-fails-once":
+			// a tracer whose Start fails the first time it is called (if the server starts its tracer at all)
+			tr := doubles.NewTracer(&connsim.Log{})
+			tr.StartErrs = 1
+			srv.SetTracer(tr)
+		case "clients=40", "clients=75", "clients=33":
+			if !running || !plainOn {
+				continue
+			}
+			var n int
+			fmt.Sscanf(op, "clients=%d", &n)
+			for k := 0; k < n; k++ {
+				cl, err := dial(false)
+				if err != nil {
+					return failf("c15|not-accepting", "%s: %s: client %d cannot connect: %v", what, when, k, err)
+				}
+				clients = append(clients, cl)
+			}
+			// all of them are being served (registered) before the sequence goes on
+			deadline := time.Now().Add(10 * time.Second)
+			for len(srv.Conns()) < len(clients) && time.Now().Before(deadline) {
+				time.Sleep(time.Millisecond)
 			}
 		case "drop-cert":
 			srv.ServerCert, srv.ServerKey = nil, nil
